@@ -92,6 +92,8 @@
 #include <upipe-ts/upipe_ts_pcr_interpolator.h>
 #include <upipe-ts/upipe_ts_pid_filter.h>
 #include <upipe-ts/upipe_ts_tstd.h>
+#include <upipe-v210/upipe_v210enc.h>
+#include <upipe-hls/upipe_hls_buffer.h>
 #include <upipe/uref_pic.h>
 #include <upipe/uref_pic_flow.h>
 #include <upipe/uref_sound.h>
@@ -222,6 +224,9 @@ static const struct ptype types[] = {
     { "ts_align", upipe_ts_align_mgr_alloc, 0 }, { "ts_metadata_generator", upipe_ts_mdg_mgr_alloc, 0 },
     { "ts_pcr_interpolator", upipe_ts_pcr_interpolator_mgr_alloc, F_ORDER | F_SAME_PAYLOAD },
     { "ts_pid_filter", upipe_ts_pidf_mgr_alloc, F_ORDER | F_SAME_PAYLOAD }, { "ts_tstd", upipe_ts_tstd_mgr_alloc, F_ORDER | F_SAME_PAYLOAD },
+    /* other libraries: v210 encoder (planar 4:2:2 in), HLS segment buffer (pack10bit / unpack10bit of upipe-hbrmt
+     * were tried and left out: their contract is about the alignment and spare room of the buffers they are given) */
+    { "v210enc", upipe_v210enc_mgr_alloc, F_TYPED }, { "hls_buffer", upipe_hls_buffer_mgr_alloc, F_ORDER | F_SAME_PAYLOAD },
 };
 #define NTYPES (int)(sizeof(types) / sizeof(types[0]))
 
@@ -232,7 +237,7 @@ static const char *const defs[] = { "block.", "block.mpegts.", "block.h264.", "v
 
 /* complete flow definitions for the pipes that look inside pictures and sound,
  * with the kind of buffer that goes with each */
-enum { K_BLOCK = 0, K_PIC, K_S16, K_S32, K_F32P, K_VOID, K_S24BLOCK, K__N };
+enum { K_BLOCK = 0, K_PIC, K_S16, K_S32, K_F32P, K_VOID, K_S24BLOCK, K_PIC422, K__N };
 static int cur_kind;                   /* of the flow definition accepted last */
 static uint64_t alloc_which;           /* kind of flow definition a flow-allocated pipe was given */
 static struct ubuf_mgr *kind_mgr[K__N];
@@ -651,6 +656,10 @@ static void env_setup(void)
         ubuf_pic_mem_mgr_add_plane(kind_mgr[K_PIC], "y8", 1, 1, 1);
         ubuf_pic_mem_mgr_add_plane(kind_mgr[K_PIC], "u8", 2, 2, 1);
         ubuf_pic_mem_mgr_add_plane(kind_mgr[K_PIC], "v8", 2, 2, 1);
+        kind_mgr[K_PIC422] = ubuf_pic_mem_mgr_alloc(depth[pool], depth[pool], umem, 1, 0, 0, 0, 0, 16, 0);
+        ubuf_pic_mem_mgr_add_plane(kind_mgr[K_PIC422], "y8", 1, 1, 1);
+        ubuf_pic_mem_mgr_add_plane(kind_mgr[K_PIC422], "u8", 2, 1, 1);
+        ubuf_pic_mem_mgr_add_plane(kind_mgr[K_PIC422], "v8", 2, 1, 1);
         kind_mgr[K_S16] = ubuf_sound_mem_mgr_alloc(depth[pool], depth[pool], umem, 4, 16);
         ubuf_sound_mem_mgr_add_plane(kind_mgr[K_S16], "lr");
         kind_mgr[K_S32] = ubuf_sound_mem_mgr_alloc(depth[pool], depth[pool], umem, 8, 16);
@@ -867,7 +876,7 @@ static void req_invariant(const char *when)
     SIM_PROBE("sweep_request_routing_checked");
 }
 
-#define NTYPED 7
+#define NTYPED 8
 static struct uref *typed_def(uint64_t which, uint64_t x, int *kind_p)
 {
     struct uref *fd = NULL;
@@ -916,6 +925,18 @@ static struct uref *typed_def(uint64_t which, uint64_t x, int *kind_p)
         fd = uref_void_flow_alloc_def(uref_mgr);
         *kind_p = K_VOID;
         break;
+    case 7:
+        fd = uref_pic_flow_alloc_def(uref_mgr, 1);
+        if (fd != NULL) {
+            uref_pic_flow_add_plane(fd, 1, 1, 1, "y8");
+            uref_pic_flow_add_plane(fd, 2, 1, 1, "u8");
+            uref_pic_flow_add_plane(fd, 2, 1, 1, "v8");
+            uref_pic_flow_set_hsize(fd, 32);
+            uref_pic_flow_set_vsize(fd, 16);
+            uref_pic_flow_set_fps(fd, fps);
+        }
+        *kind_p = K_PIC422;
+        break;
     case 5:
         fd = uref_alloc(uref_mgr);
         if (fd != NULL) {
@@ -941,8 +962,8 @@ static struct uref *typed_buffer(int kind, unsigned size, uint64_t content)
     struct uref *uref = NULL;
     if (kind == K_VOID)
         return uref_alloc(uref_mgr);
-    if (kind == K_PIC) {
-        uref = uref_pic_alloc(uref_mgr, kind_mgr[K_PIC], 32, pic_rows);
+    if (kind == K_PIC || kind == K_PIC422) {
+        uref = uref_pic_alloc(uref_mgr, kind_mgr[kind], 32, pic_rows);
         static const char *const planes[] = { "y8", "u8", "v8" };
         for (int p = 0; uref != NULL && p < 3; p++) {
             uint8_t *w;
